@@ -2,7 +2,10 @@ package compose
 
 import (
 	"context"
+	"io"
 	"strings"
+
+	"github.com/cloudwego/eino/schema"
 )
 
 // C15 (b): accepted field mappings move exactly the mapped values.
@@ -362,4 +365,105 @@ func VerifC15NamedKeyPath() {
 	_, rerr := r.Invoke(ctx, 0)
 	vassert(rerr == nil, "an accepted mapping from an element of a map with a named string key type runs without error or panic")
 	vassert(got == x, "and moves the value")
+}
+
+// Multi-chunk streams through field mappings: a streaming predecessor emits 2-3 map chunks each carrying any subset
+// of the mapped keys; every chunk is mapped on its own and the successor sees, under each target key, the
+// concatenation (in chunk order) of the values its source key carried; a key that never appears is an ordinary
+// error or an absent target, never a panic.
+func VerifC15StreamChunks() {
+	ctx := context.Background()
+	vcfg("fifo", 1)
+	vcfg("selectfirst", 1)
+	n := 2 + vchoose("chunks", 1+vtier())
+	keys := []string{"A", "B"}
+	var chunks []map[string]any
+	want := map[string]string{}
+	seen := map[string]bool{}
+	for i := 0; i < n; i++ {
+		sub := vchoose("subset", 4)
+		c := map[string]any{}
+		for k, key := range keys {
+			if sub&(1<<k) != 0 {
+				v := vsymStr("v_" + key + string(rune('0'+i)))
+				c[key] = v
+				want[key] += v
+				seen[key] = true
+			}
+		}
+		c["other"] = "zz"
+		chunks = append(chunks, c)
+	}
+	var got map[string]any
+	wf := NewWorkflow[int, map[string]any]()
+	wf.AddLambdaNode("src", StreamableLambda(func(ctx context.Context, in int) (*schema.StreamReader[map[string]any], error) {
+		return schema.StreamReaderFromArray(chunks), nil
+	})).AddInput(START)
+	wf.AddLambdaNode("dst", InvokableLambda(func(ctx context.Context, in map[string]any) (map[string]any, error) {
+		got = in
+		return in, nil
+	})).AddInput("src", MapFields("A", "F"), MapFields("B", "G"))
+	wf.End().AddInput("dst")
+	r, err := wf.Compile(ctx)
+	vassert(err == nil, "workflow with map-key mappings compiles")
+	var out map[string]any
+	var rerr error
+	if vchoose("stream", 2) == 1 {
+		sr, e := r.Stream(ctx, 0)
+		rerr = e
+		if e == nil {
+			var parts []map[string]any
+			for i := 0; i < 6; i++ {
+				c, e := sr.Recv()
+				if e == io.EOF {
+					break
+				}
+				if e != nil {
+					rerr = e
+					break
+				}
+				parts = append(parts, c)
+			}
+			sr.Close()
+			if rerr == nil {
+				out = map[string]any{}
+				for _, p := range parts {
+					for k, v := range p {
+						if s, ok := v.(string); ok {
+							if o, ok := out[k].(string); ok {
+								out[k] = o + s
+							} else {
+								out[k] = s
+							}
+						}
+					}
+				}
+			}
+		}
+	} else {
+		out, rerr = r.Invoke(ctx, 0)
+	}
+	if !(seen["A"] && seen["B"]) {
+		// a mapped key that no chunk carries: an ordinary error, or the target is simply absent
+		if rerr == nil {
+			for k, key := range keys {
+				_, has := got[[]string{"F", "G"}[k]]
+				vassert(has == seen[key], "a target key is present exactly when some chunk carried its source key")
+			}
+		}
+		return
+	}
+	vassert(rerr == nil, "run succeeds when every mapped key is carried by some chunk")
+	for k, key := range keys {
+		to := []string{"F", "G"}[k]
+		s, ok := got[to].(string)
+		vassert(ok && s == want[key], "target key "+to+" holds the concatenation, in chunk order, of what source key "+key+" carried")
+		s2, ok2 := out[to].(string)
+		vassert(ok2 && s2 == want[key], "and the run's output carries it unchanged")
+	}
+	_, extra := got["other"]
+	vassert(!extra && len(got) == 2, "nothing that was not mapped reaches the successor")
+	for _, c := range chunks {
+		vassert(c["other"] == "zz", "the predecessor's chunks are left unchanged")
+	}
 }
